@@ -36,12 +36,12 @@ def main():
     rc_suite, o_suite = sh("(cargo test --offline --features serde --lib --test lib --test test_array --test serde_tests; cargo test --offline --features serde --doc) 2>&1 | grep -E '^test result|FAILED|panicked|error' | head -20", cwd=wt)
     suite_ok = "FAILED" not in o_suite and "test result: ok" in o_suite
     out["ran"].append({"cmd": "cargo test --offline --features serde --lib --test lib --test test_array --test serde_tests; ... --doc   (patch applied; every target except the demonstration)", "ok": suite_ok, "summary": o_suite.strip().splitlines()[:8]})
-    rc_demo, o_demo = sh("cargo test --offline --test seed_demo 2>&1 | tail -15", cwd=wt)
+    rc_demo, o_demo = sh("cargo test --offline --features serde --test seed_demo 2>&1 | tail -15", cwd=wt)
     demo_fails = "test result: FAILED" in o_demo or "FAILED" in o_demo
     out["ran"].append({"cmd": "cargo test --offline --test seed_demo   (patch applied)", "fails_as_expected": demo_fails})
     # 2. without the change: demonstration passes
     sh("git apply -R patch.diff", cwd=wt)
-    rc_demo2, o_demo2 = sh("cargo test --offline --test seed_demo 2>&1 | tail -8", cwd=wt)
+    rc_demo2, o_demo2 = sh("cargo test --offline --features serde --test seed_demo 2>&1 | tail -8", cwd=wt)
     demo_passes = "test result: ok" in o_demo2 and "FAILED" not in o_demo2
     out["ran"].append({"cmd": "cargo test --offline --test seed_demo   (patch reverted)", "passes_as_expected": demo_passes})
     out["confirmed"] = bool(suite_ok and demo_fails and demo_passes)
